@@ -393,6 +393,20 @@ macro_rules! group_model {
             pub fn double(&self) -> Self {
                 $P(addq(self.0, self.0), 0)
             }
+            /// multi-scalar multiplication (the real one pairs up to the shorter of the two slices)
+            pub fn sum_of_products(points: &[Self], scalars: &[Scalar]) -> Self {
+                let n = if points.len() < scalars.len() { points.len() } else { scalars.len() };
+                let mut acc: u16 = 0;
+                let mut i = 0;
+                while i < n {
+                    acc = addq(acc, mulq(points[i].0, scalars[i].0));
+                    i += 1;
+                }
+                $P(acc, 0)
+            }
+            pub fn sum_of_products_in_place(points: &[Self], scalars: &mut [Scalar]) -> Self {
+                Self::sum_of_products(points, scalars)
+            }
         }
         impl $A {
             pub const COMPRESSED_BYTES: usize = $CB;
